@@ -6,28 +6,41 @@ PROP = dict(
          "when the needle's first rune has a SimpleFold orbit of >= 2 members and a member of that orbit occurs in the haystack; "
          "every SplitTrimmed case is non-trivial; std.* cases (models of stdlib functions vs the real ones) are trivial; "
          "distinct = distinct case line",
-    trusted=["contract FOLD-1 on unicode.SimpleFold (cycles of <= 8 runes; U+FFFD fixed; ASCII runes share an orbit iff equal ASCII lower case); "
-             "swept over every rune against the real SimpleFold/EqualFold by the harness on every run (C13.std.fold1)",
+    trusted=["the translator gen/unifold.go reading asciiFold, caseOrbit, CaseRanges, MaxRune, UpperLower, ReplacementChar from "
+             "$GOROOT/src/unicode/{tables.go,letter.go} of the toolchain that builds /repo (go/types constant evaluation; shapes checked, "
+             "regenerated on every run)",
+             "the Lean model Unicode.simpleFold of unicode.SimpleFold (Go 1.24.2 letter.go, statement by statement: range guard, asciiFold, "
+             "binary search over caseOrbit, lookupCaseRange, convertCase): compared with the real function on EVERY rune 0..MaxRune, on "
+             "values above MaxRune, and negative runes checked to be returned unchanged, on every run (C13.std.simplefold)",
              "Lean models of utf8.DecodeRuneInString, DecodeLastRuneInString, range-over-string, strings.IndexFunc, strings.EqualFold "
-             "(rune-sequence form over the SimpleFold table shipped with each case), strings.TrimSpace, strings.Split: modelled, "
+             "(rune-sequence form over Unicode.simpleFold), strings.TrimSpace, strings.Split: modelled, "
              "sampled against the real functions on every run (C13.std.* ops)",
              "strings.Split returns a freshly made non-nil slice with len = cap; append writes in place while len < cap"],
     level_text="Lean theorems for all byte strings (induction over the scan loop of ContainsFold and over the in-place filter loop of "
                "SplitTrimmed) about an executable model of the two functions; the model is tied to the Go code by running both on the "
                "same generated cases on every check",
-    level_note="full strength, no _partial: containsFold_iff (valid UTF-8 operands free of U+FFFD, under contract FOLD-1: result <=> a "
+    level_note="full strength, no _partial: fold1_model (contract FOLD-1 is a THEOREM about the model Unicode.simpleFold of unicode.SimpleFold "
+               "over the tables regenerated from GOROOT: every fold cycle closes within 8 steps, U+FFFD fixed, ASCII runes share a cycle iff "
+               "equal ASCII lower case — for every rune a : Nat), simpleFold_fixed_outside_tables, and the hypothesis-free corollaries "
+               "containsFold_iff_unicode / containsFold_ascii_unicode / equalFold_iff_unicode (fold := Unicode.simpleFold); for every fold "
+               "function satisfying FOLD-1: containsFold_iff (valid UTF-8 operands free of U+FFFD: result <=> a "
                "window of len(sub) bytes at a rune boundary is EqualFold to sub; includes no-panic), containsFold_ascii / _ascii_offset "
                "(ASCII operands: <=> Contains(ToLower s, ToLower sub)), containsFold_never_panics (all byte strings, any fold function), "
                "scan_decides_reference (any scan predicate accepting every possible first rune of a match), equalFold_iff, "
                "splitTrimmed_spec / _spec_std / _nonnil, inplace_filter_safe (invariant of the in-place filter on the shared backing "
                "array), containsFoldOrig_defect (the shipped predicate fails on DISK/sk under a FOLD-1 fold function). "
-               "Trusted: Lean kernel; contract FOLD-1 about unicode.SimpleFold (swept over all runes on every run); the Lean models of "
+               "Trusted: Lean kernel; the translator reading unicode/tables.go; the model of unicode.SimpleFold (tied to the real function "
+               "on all runes on every run); the Lean models of "
                "utf8 decoding, IndexFunc, EqualFold (rune-sequence form), TrimSpace, Split (sampled by std.* ops); the differential "
                "correspondence (sampled). The model is of the repaired ContainsFold (fix-1.diff: search every member of the first "
                "rune's fold orbit); on the unchanged tree the check fails with witness ContainsFold(\"IK\",\"k\") = false",
     technique="Lean 4: induction over the scan loop (well-founded on len(s)) with UTF-8 self-synchronisation lemmas and an orbit "
-              "characterisation of SimpleFold under FOLD-1; invariant proof for the in-place filter on a backing-array model; "
+              "characterisation of SimpleFold under FOLD-1; FOLD-1 proved for a statement-by-statement model of unicode.SimpleFold over "
+              "tables regenerated from $GOROOT/src/unicode/tables.go: soundness of the two binary searches (a rune outside the tables is a "
+              "fixed point, all Nat) + kernel evaluation (decide +kernel, no axioms) of the period/ASCII clauses on the ~3000 runes inside "
+              "the tables; exhaustive differential tie of the SimpleFold model (all 1114112 runes, every run); invariant proof for the in-place filter on a backing-array model; "
               "differential tie with per-case SimpleFold oracle tables; direct oracle = the reference definition with strings.EqualFold",
-    assumptions=["unicode.SimpleFold satisfies FOLD-1 (checked exhaustively by the harness, not proved)",
+    assumptions=["unicode.SimpleFold is its Lean model Unicode.simpleFold (checked exhaustively on all runes by the harness on every run); "
+                 "FOLD-1 is then a theorem, not an assumption",
                  "the ContainsFold reference is only claimed for valid UTF-8 operands free of U+FFFD, as in the property"],
 )
